@@ -476,13 +476,13 @@ Definition eval_infix_step (self : evals) (st : state) (op : bytes) (l r : expr)
                 | Some (HSlice ety els) =>
                     if ty_eqb ety TyIface || ty_eqb ety (ty_of rv) then
                       let '(st3, nl) := halloc_st st2 (HSlice ety (els ++ [rv])) in
-                      ROk (VRefl (VSlice nl), st3)
+                      ROk (VSlice nl, st3)
                     else fail st2
                 | _ => fail st2
                 end
               else fail st2
           | VList els =>
-              if op_is op o_plus then ROk (VRefl (VList (els ++ [rv])), st2) else fail st2
+              if op_is op o_plus then ROk (VList (els ++ [rv]), st2) else fail st2
           | _ => fail st2
           end.
 
